@@ -46,12 +46,21 @@ PARTIAL = ("Names with non-ASCII cased letters are outside the model (Base/Bytes
            "service map with the Unicode to_lowercase): they are covered by a model-free family judged on the trace in exactly "
            "the registered spelling (liveness only: three probes 250 ms apart, two announcements one second apart within 1 s of "
            "the registration, questions answered; unregister OK, goodbye and repeat, silence afterwards), not by the correspondence. "
-           "The theorems are single-step statements for every state; that chk_C09 accepts every run of the daemon model "
+           "Proved over ALL histories of the daemon model (induction over the iterations, no bound): queued goodbye repeats are "
+           "goodbyes (C09_saved_repeats_are_goodbyes_all_histories), an iteration adds to the queue only RegisterResend "
+           "for now + 1000 and goodbye repeats for now + 120 (C09_queue_growth), no due entry survives an iteration "
+           "(C09_no_overdue_repeat), the repeat is sent once and leaves the queue (C09_repeat_run_once); for every state the "
+           "goodbye and its repeat go out on every interface/family the service is announced on "
+           "(C09_goodbye_everywhere_announced). REFUTED: that nothing of the service remains in the registry after the "
+           "repeat (C09_registry_forgets_unregistered_service_refuted; finding C09-registry-keeps-unregistered-service, "
+           "not rejected by the monitors). NOT proved over histories: that no live response after the unregister carries "
+           "a record of the service (single-step theorems for every state + chk_C09 code 3 executed on every history). "
+           "The other theorems are single-step statements for every state; that chk_C09 accepts every run of the daemon model "
            "(in particular that no response ever carries a record of an unregistered service, over whole histories) is "
            "validated on every generated history by running the monitor on the model's own output, not proved. chk_C09 "
            "judges each iteration against the model's state before it; that state is validated against the implementation "
-           "by the correspondence on the same run. No findings remain (the three of round 1 are repaired: goodbyes under "
-           "pre-rename names, goodbyes where the service was still probing, the IPv4 repeat on another interface)")
+           "by the correspondence on the same run. The three findings of round 1 are repaired (goodbyes under pre-rename "
+           "names, goodbyes where the service was still probing, the IPv4 repeat on another interface)")
 
 KNOWN = {}
 
